@@ -309,6 +309,20 @@ def stepOp (j : Json) : M Json := do
     | some id => bindVar (← reqM (getNat? j "dst")) id
     | none => fail .typeErr    -- `None` component: AttributeError-like
     pure okJson
+  | "vec_setcomp" => do
+    -- `v.x = a` / `v.z = a`: plain attribute assignment (no validation, no renaming); every operator reads
+    -- the components through the attributes, so the Vector is from now on made of the new object
+    let vid ← getVar j "a"
+    let c ← reqM (getNat? j "c")
+    let nid ← getVar j "v"
+    let v ← getVecO vid
+    match ← getObj nid with
+    | .arr _ =>
+      if c < v.comps.length then setObj vid (.vec { v with comps := v.comps.set c nid })
+      else if c == v.comps.length && c < 3 then setObj vid (.vec { v with comps := v.comps ++ [nid] })
+      else fail .badOp
+    | _ => fail .badOp
+    pure okJson
   | "normsq" => do
     let aid ← getVar j "a"
     match ← getObj aid with
